@@ -8,7 +8,8 @@ Mirrors, line by line:
                         heart_beat_index = num_hb_to_do = 0; current_heart_beat = 0)
   set_heart_beat    -> `setHeartBeat`     (O_DESTRUCTED test, clamp to SHRT_MAX (fix: C11), removal with the
                         compensation of heart_beat_index / num_hb_to_do guarded by `if (num_hb_to_do)`, memmove,
-                        retune `(short)to` refused for to < 0, append with growth by HEART_BEAT_CHUNK, to < 0 -> 1)
+                        retune `(short)to` refused for to < 0, append with growth by HEART_BEAT_CHUNK, to < 0 -> 1;
+                        the memmove arguments and the new num_hb_objs are `NV.Gen.C11.rmMove`)
   query_heart_beat  -> `queryHeartBeat`
   f_set_heart_beat  -> `satEfun` then `setHeartBeat` on the current object
   error_handler     -> `errorHandler`     (set_heart_beat (current_heart_beat, 0); current_heart_beat = 0) and the
@@ -44,6 +45,11 @@ inductive Op where
   | flag                                -- the timer fires now (heart_beat_flag = 1)
   | hbs                                 -- heart_beats()
   | take (item : Nat)                   -- item->move_object(this_object()): item joins the inventory
+  | cerr                                -- catch (error ("boom")): the error never reaches the uncaught branch
+  | reload (target : Nat) (n : Int)     -- reload_object(target); its create() does set_heart_beat(n) again
+  | living                              -- enable_commands()
+  | burn                                -- use up evaluation cost
+  | rp                                  -- replace_program ("/c11/base"): the inherited program without heart_beat()
   deriving Repr, BEq
 
 structure World where
@@ -59,6 +65,12 @@ structure World where
   nb : Nat → Nat := fun _ => 0          -- per object: number of beats so far (selects the script)
   inv : List (Nat × Nat) := []          -- (item, carrier), newest first (ob->contains is a head-inserted list)
   hooks : Nat → List Op := fun _ => []  -- static: what move_or_destruct() of an object does
+  tflags : Int := (NV.Gen.C11.timerFlagHeartbeat : Nat)   -- MAIN_OPTION (timer_flags)
+  living : List Nat := []               -- O_ENABLE_COMMANDS
+  cg : Option Nat := none               -- command_giver
+  ec : Bool := true                     -- eval_cost == CONFIG_INT (__MAX_EVAL_COST__)
+  rp : List Nat := []                   -- obj_list_replace (head = newest entry)
+  replaced : List Nat := []             -- objects whose program has been replaced
   crashed : Bool := false
 
 abbrev Scripts := Nat → Nat → List Op
@@ -73,11 +85,17 @@ def idxOf (x : Nat) : List Entry → Option Nat
 
 def World.alive (w : World) (x : Nat) : Bool := w.known.contains x && !w.dead.contains x
 
+/-- `memmove (heart_beats + dst, heart_beats + src, cnt * sizeof (heart_beat_t))` under its guard, followed by the new
+    element count, on the list (`NV.Gen.C11.rmMove` gives dst, src, cnt, guard, count) -/
+def applyMove (l : List Entry) (m : Int × Int × Int × Bool × Int) : List Entry :=
+  (if m.2.2.2.1 then l.take m.1.toNat ++ (l.drop m.2.1.toNat).take m.2.2.1.toNat ++ l.drop (m.1.toNat + m.2.2.1.toNat)
+   else l).take m.2.2.2.2.toNat
+
 /-- src/backend.c set_heart_beat (ob, to).  The rewrite of `to` in front of the `!to` test, the compensation of
     heart_beat_index / num_hb_to_do on removal and what the append branch stores are the definitions regenerated
     from the source (`NV.Gen.C11.clampTo`, `rmCompensate`, `appendStore`) -/
 def setHeartBeat (w : World) (ob : Nat) (to : Int) : World :=
-  if w.dead.contains ob then w
+  if w.dead.contains ob then w           -- `if (ob->flags & O_DESTRUCTED) return 0;` (mask: NV.Gen.C11.shbGuardMask)
   else
     let to := NV.Gen.C11.clampTo to
     if to = 0 then
@@ -85,16 +103,17 @@ def setHeartBeat (w : World) (ob : Nat) (to : Int) : World :=
       | none => w
       | some index =>
         let c := NV.Gen.C11.rmCompensate (index : Int) w.idx w.todo
-        { w with idx := c.1, todo := c.2, hbs := w.hbs.eraseIdx index }
+        { w with idx := c.1, todo := c.2, hbs := applyMove w.hbs (NV.Gen.C11.rmMove (index : Int) (w.hbs.length : Int)) }
     else if hasOb ob w.hbs then
-      if to < 0 then w
+      let r := NV.Gen.C11.retuneStore to 0 0
+      if r.1 then w
       else
         match idxOf ob w.hbs with
         | none => w
         | some index =>
-          { w with hbs := w.hbs.set index { ob := ob, ticks := NV.Gen.C11.trunc16 to, interval := NV.Gen.C11.trunc16 to } }
+          { w with hbs := w.hbs.set index { ob := ob, ticks := r.2.1, interval := r.2.2 } }
     else
-      let cap := if w.cap = 0 then chunk else if w.hbs.length = w.cap then w.cap + chunk else w.cap
+      let cap := (NV.Gen.C11.growCap (w.cap : Int) (w.hbs.length : Int)).toNat
       if w.hbs.length < cap then
         let s := NV.Gen.C11.appendStore to
         { w with cap := cap, hbs := w.hbs ++ [{ ob := ob, ticks := s.1, interval := s.2 }] }
@@ -106,10 +125,20 @@ def queryHeartBeat (w : World) (ob : Nat) : Int :=
   | some e => e.interval
   | none => 0
 
-/-- src/error_context.c error_handler, uncaught branch -/
+/-- one statement of the `if (current_heart_beat) { ... }` block of error_handler, by the code the translator gives it
+    (`NV.Gen.C11.errBlock`): 1 = `set_heart_beat (current_heart_beat, 0)`, 2 = `current_heart_beat = 0` -/
+def errStmt (w : World) : Nat → World
+  | 1 => match w.cur with
+    | some c => setHeartBeat w c 0
+    | none => { w with crashed := true }       -- set_heart_beat (NULL, 0)
+  | 2 => { w with cur := none }
+  | _ => w
+
+/-- src/error_context.c error_handler, uncaught branch: the statements of the `if (current_heart_beat)` block in the
+    order of the source -/
 def errorHandler (w : World) : World :=
   match w.cur with
-  | some c => { setHeartBeat w c 0 with cur := none }
+  | some _ => NV.Gen.C11.errBlock.foldl errStmt w
   | none => w
 
 def isItem (w : World) (x : Nat) : Bool := w.inv.any (fun p => p.1 == x)
@@ -151,12 +180,27 @@ def stepOpBasic (w : World) (self : Nat) (op : Op) : World × List Ev × Status 
       let w3 := setHeartBeat w2 new (NV.Gen.C11.efunSat n)
       (w3, [.clone self new k n (queryHeartBeat w3 new)], .ok)
   | .err => (w, [.err self], .err)
-  | .flag => ({ w with flag := true }, [.flag self], .ok)
+  | .flag => ({ w with flag := decide (NV.Gen.C11.timerSetsFlag (if w.flag then 1 else 0) ≠ 0) }, [.flag self], .ok)   -- heartbeat_timer_callback
   | .hbs => (w, [.hbs self (w.hbs.map (·.ob)).reverse], .ok)
   | .take i =>
     if w.alive i && !(i < 2) && i != self && !isItem w self && !isItem w i && (itemsOf w i).isEmpty then
       ({ w with inv := (i, self) :: w.inv }, [.into i self], .ok)
     else (w, [.intoNone i self], .ok)
+  | .cerr => (w, [.caught self], .ok)
+  | .reload t n =>
+    if !w.alive t || t < 2 then (w, [.reloadNone self t], .ok)
+    else
+      -- lib/lpc/object.c reload_object: variables cleared, O_ENABLE_COMMANDS cleared, set_heart_beat (obj, 0), create()
+      let w1 := setHeartBeat { w with living := w.living.filter (· != t), nb := fun o => if o = t then 0 else w.nb o } t 0
+      let w2 := setHeartBeat w1 t (NV.Gen.C11.efunSat n)
+      (w2, [.reload self t n (queryHeartBeat w2 t)], .ok)
+  | .living => ({ w with living := self :: w.living, cg := some self }, [.living self], .ok)
+  | .burn => ({ w with ec := false }, [.burn self], .ok)
+  | .rp =>
+    -- lib/efuns/replace_program.c f_replace_program: one entry per object in obj_list_replace, new ones at the head;
+    -- the program is swapped by replace_programs() at the top of the backend loop
+    if self < 2 || w.replaced.contains self then (w, [.rpNone self], .ok)
+    else ({ w with rp := if w.rp.contains self then w.rp else self :: w.rp }, [.rp self], .ok)
 
 /-- run a script; stops at the first error or when the object is destructed (by itself, or as an inventory item
     of the object it destructed) -/
@@ -171,37 +215,43 @@ def runOpsBasic (w : World) (self : Nat) : List Op → World × List Ev × Statu
 
 
 /-- operations that the scripted move_or_destruct() hooks perform (no destruct - restrict_destruct would refuse it -,
-    no error, no inventory change) -/
+    no inventory change; an uncaught error leaves destruct_object right there) -/
 def hookAllowed : Op → Bool
-  | .shb _ _ | .q _ | .clone _ _ _ | .flag | .hbs => true
+  | .shb _ _ | .q _ | .clone _ _ _ | .flag | .hbs | .err | .cerr => true
   | _ => false
 
 /-- one iteration of `while (ob->contains)`: apply move_or_destruct() in the item (its script may touch any heart beat,
-    including the dying carrier's), then `if (otmp == ob->contains) destruct_object (otmp)` -/
-def hookStep (carrier : Nat) (acc : World × List Ev) (i : Nat) : World × List Ev :=
-  if !acc.1.alive i then acc
+    including the dying carrier's), then `if (otmp == ob->contains) destruct_object (otmp)`.  "An error here will not
+    leave destruct() in an inconsistent stage": it propagates to the caller of destruct_object; the carrier and the
+    remaining items stay as they are (status `.err`, later items are not visited) -/
+def hookStep (carrier : Nat) (acc : World × List Ev × Status) (i : Nat) : World × List Ev × Status :=
+  if acc.2.2 != .ok then acc
+  else if !acc.1.alive i then acc
   else
     match runOpsBasic acc.1 i ((acc.1.hooks i).filter hookAllowed) with
+    | (w1, e1, .err) => (w1, acc.2.1 ++ .hook i carrier :: e1, .err)
     | (w1, e1, _) =>
-      if w1.alive i then (destructLeaf w1 i, acc.2 ++ .hook i carrier :: e1 ++ [.hookEnd i])
-      else (w1, acc.2 ++ .hook i carrier :: e1 ++ [.hookGone i])
+      if w1.alive i then (destructLeaf w1 i, acc.2.1 ++ .hook i carrier :: e1 ++ [.hookEnd i], .ok)
+      else (w1, acc.2.1 ++ .hook i carrier :: e1 ++ [.hookGone i], .ok)
 
-def hooksPhase (w : World) (t : Nat) : World × List Ev := (itemsOf w t).foldl (hookStep t) (w, [])
+def hooksPhase (w : World) (t : Nat) : World × List Ev × Status := (itemsOf w t).foldl (hookStep t) (w, [], .ok)
 
-/-- one statement group of destruct_object; the Bool says "still going": the inventory loop returns from
-    destruct_object when a hook left the object destructed (`if (ob->flags & O_DESTRUCTED) return;`) -/
-def fullPhase (t : Nat) (acc : World × List Ev × Bool) : Nat → World × List Ev × Bool
+/-- one statement group of destruct_object; the status says `.ok` = still going, `.stop` = the inventory loop returned
+    from destruct_object because a hook left the object destructed (`if (ob->flags & O_DESTRUCTED) return;`),
+    `.err` = a hook raised an error -/
+def fullPhase (t : Nat) (acc : World × List Ev × Status) : Nat → World × List Ev × Status
   | 0 =>
-    if acc.2.2 then
+    if acc.2.2 = .ok then
       match hooksPhase acc.1 t with
-      | (w1, e1) => (w1, acc.2.1 ++ e1, w1.alive t)
+      | (w1, e1, .err) => (w1, acc.2.1 ++ e1, .err)
+      | (w1, e1, _) => (w1, acc.2.1 ++ e1, if w1.alive t then .ok else .stop)
     else acc
-  | ph => if acc.2.2 then (leafPhase t acc.1 ph, acc.2.1, true) else acc
+  | ph => if acc.2.2 = .ok then (leafPhase t acc.1 ph, acc.2.1, .ok) else acc
 
 /-- src/simulate.c destruct_object: inventory hooks, heart-beat removal and the O_DESTRUCTED store in the order of
-    the source; (world, events, ran to the end) -/
-def destructFull (w : World) (t : Nat) : World × List Ev × Bool :=
-  NV.Gen.C11.destructOrder.foldl (fullPhase t) (w, [], true)
+    the source; (world, events, ran to the end / returned early / error) -/
+def destructFull (w : World) (t : Nat) : World × List Ev × Status :=
+  NV.Gen.C11.destructOrder.foldl (fullPhase t) (w, [], .ok)
 
 /-- one operation executed by the live object `self` -/
 def stepOp (w : World) (self : Nat) (op : Op) : World × List Ev × Status :=
@@ -210,8 +260,9 @@ def stepOp (w : World) (self : Nat) (op : Op) : World × List Ev × Status :=
     if !w.alive t || t < 2 then (w, [.destNone self t], .ok)
     else
       match destructFull w t with
-      | (w', evs, true) => (w', evs ++ [.dest self t], if w'.alive self then .ok else .stop)
-      | (w', evs, false) => (w', evs ++ [.destGone self t], if w'.alive self then .ok else .stop)
+      | (w', evs, .ok) => (w', evs ++ [.dest self t], if w'.alive self then .ok else .stop)
+      | (w', evs, .stop) => (w', evs ++ [.destGone self t], if w'.alive self then .ok else .stop)
+      | (w', evs, .err) => (w', evs, .err)
   | op => stepOpBasic w self op
 
 /-- run a script; stops at the first error or when the object is destructed (by itself, or as an inventory item
@@ -223,10 +274,42 @@ def runOps (w : World) (self : Nat) : List Op → World × List Ev × Status
     | (w1, evs, .ok) =>
       match runOps w1 self rest with
       | (w2, evs2, st) => (w2, evs ++ evs2, st)
+    | (w1, evs, .stop) =>
+      -- the function of a destructed object runs on until it returns: an error raised there still reaches
+      -- error_handler, whose set_heart_beat (current_heart_beat, 0) then meets O_DESTRUCTED
+      match rest with
+      | .err :: _ => (w1, evs ++ [.err self], .err)
+      | _ => (w1, evs, .stop)
     | (w1, evs, st) => (w1, evs, st)
 
-/-- end of a round: `heart_beat_index = num_hb_to_do = 0; current_heart_beat = 0` -/
-def finish (w : World) : World := { w with idx := 0, todo := 0, cur := none }
+/-- write back (heart_beat_index, num_hb_to_do, current_heart_beat) computed by a regenerated slice; the slices only ever
+    store NULL into current_heart_beat (0 = NULL, anything else = unchanged) -/
+def leave (w : World) (x : Int × Int × Int) : World :=
+  { w with idx := x.1, todo := x.2.1, cur := if x.2.2 = 0 then none else w.cur }
+
+def curInt (w : World) : Int := if w.cur.isSome then 1 else 0
+
+/-- end of a round (`NV.Gen.C11.roundExit`): `heart_beat_index = num_hb_to_do = 0; ... current_heart_beat = 0` -/
+def finish (w : World) : World := leave w (NV.Gen.C11.roundExit w.idx w.todo (curInt w))
+
+/-- one statement next to the call of heart_beat() in call_heart_beat, by the code the translator gives it
+    (`NV.Gen.C11.callFrame`) -/
+def frameStmt (ob : Nat) (w : World) : Nat → World
+  | 1 => { w with cur := some ob }                          -- current_heart_beat = ob;
+  | 2 => { w with cg := some ob }                           -- command_giver = ob;
+  | 3 => match w.cg with                                    -- if (!(command_giver->flags & O_ENABLE_COMMANDS)) command_giver = 0;
+    | some g => if w.living.contains g then w else { w with cg := none }
+    | none => { w with crashed := true }
+  | 4 => { w with ec := true }                              -- eval_cost = CONFIG_INT (__MAX_EVAL_COST__);
+  | 5 => { w with cg := none }                              -- command_giver = 0;
+  | _ => w                                                  -- current_object = 0; (not modelled)
+
+/-- the statements in front of / after the call, in the order of the source -/
+def callSetup (w : World) (ob : Nat) : World := (NV.Gen.C11.callFrame.takeWhile (· != 0)).foldl (frameStmt ob) w
+def callAfter (w : World) (ob : Nat) : World := ((NV.Gen.C11.callFrame.dropWhile (· != 0)).drop 1).foldl (frameStmt ob) w
+
+/-- what the heart_beat function sees when it is entered -/
+def ctxEv (w : World) (ob : Nat) : Ev := .ctx ob (w.living.contains ob) w.cg w.ec
 
 def crash (w : World) (why : String) : World × List Ev := ({ w with crashed := true }, [.junk s!"crash {why}"])
 
@@ -248,32 +331,59 @@ def round (sc : Scripts) : Nat → World → World × List Ev
       | some hb =>
         let b := NV.Gen.C11.hbBody (if w.nofn.contains hb.ob then -1 else 0) hb.ticks hb.interval
         if b.2.1 then
-          let w1 := { w with hbs := w.hbs.set w.idx.toNat { hb with ticks := b.2.2 }, cur := some hb.ob,
-                             nb := fun o => if o = hb.ob then w.nb o + 1 else w.nb o }
+          let w1 := callSetup { w with hbs := w.hbs.set w.idx.toNat { hb with ticks := b.2.2 },
+                                       nb := fun o => if o = hb.ob then w.nb o + 1 else w.nb o } hb.ob
           match runOps w1 hb.ob (sc hb.ob (w.nb hb.ob)) with
-          | (w2, evs, .err) => (errorHandler w2, .beat hb.ob :: evs ++ [.tickAbort])
+          | (w2, evs, .err) => (errorHandler w2, .beat hb.ob :: ctxEv w1 hb.ob :: evs ++ [.tickAbort])
           | (w2, evs, _) =>
-            if (cursorStep w2).2 then (finish (cursorStep w2).1, .beat hb.ob :: evs ++ [.beatEnd hb.ob, .tickEnd])
+            let w2 := callAfter w2 hb.ob
+            if (cursorStep w2).2 then (finish (cursorStep w2).1, .beat hb.ob :: ctxEv w1 hb.ob :: evs ++ [.beatEnd hb.ob, .tickEnd])
             else
               match round sc fuel (cursorStep w2).1 with
-              | (w4, evs') => (w4, .beat hb.ob :: evs ++ .beatEnd hb.ob :: evs')
+              | (w4, evs') => (w4, .beat hb.ob :: ctxEv w1 hb.ob :: evs ++ .beatEnd hb.ob :: evs')
         else
           let w1 := { w with hbs := w.hbs.set w.idx.toNat { hb with ticks := b.1 } }
           if (cursorStep w1).2 then (finish (cursorStep w1).1, [.tickEnd])
           else round sc fuel (cursorStep w1).1
 
-/-- src/backend.c call_heart_beat (heart beats only: timer_flags = TIMER_FLAG_HEARTBEAT) -/
+/-- lib/efuns/replace_program.c replace_programs(), one entry: `r_ob->ob->prog = r_ob->new_prog` (a program without
+    heart_beat function: `prog->heart_beat == -1` from now on).  Destructed objects are not observable. -/
+def rpStep (acc : World × List Ev) (o : Nat) : World × List Ev :=
+  if acc.1.alive o then
+    ({ acc.1 with nofn := o :: acc.1.nofn, replaced := o :: acc.1.replaced }, acc.2 ++ [.rpDone o])
+  else acc
+
+/-- top of the backend() loop: remove_destructed_objects() -> `if (obj_list_replace) replace_programs ();` -/
+def applyRp (w : World) : World × List Ev := w.rp.foldl rpStep ({ w with rp := [] }, [])
+
+/-- does timer_flags have TIMER_FLAG_HEARTBEAT (what the harness prints as `tickbegin` / `tickbegin off`) -/
+def hbOn (tf : Int) : Bool := decide ((tf / (NV.Gen.C11.timerFlagHeartbeat : Nat)) % 2 ≠ 0)
+
+/-- src/backend.c call_heart_beat (heart beats only).  The frame of the round is regenerated from the source:
+    `NV.Gen.C11.roundEntry` = everything up to the while loop (heart_beat_flag = 0, num_hb_to_do = num_hb_objs, the
+    `(timer_flags & TIMER_FLAG_HEARTBEAT) && num_hb_to_do > 0` guard, heart_beat_index = 0), `roundSkip` = what is left
+    when the guard fails (heart_beat_index and num_hb_to_do keep their values, current_heart_beat = 0) -/
+def tickCore (sc : Scripts) (w : World) : World × List Ev :=
+  let e := NV.Gen.C11.roundEntry (w.hbs.length : Int) w.idx w.todo (if w.flag then 1 else 0) w.tflags
+  let begin : Ev := if hbOn w.tflags then .tickBegin else .tickOff
+  let w : World := { w with flag := decide (e.2.2.1 ≠ 0), idx := e.1, todo := e.2.1 }
+  if e.2.2.2 then
+    match round sc w.hbs.length w with
+    | (w', evs) => (w', begin :: evs)
+  else (leave w (NV.Gen.C11.roundSkip w.idx w.todo (curInt w)), [begin, .tickEnd])
+
+/-- one pass of the backend() loop with the timer fired: pending program replacements, then call_heart_beat -/
 def tick (sc : Scripts) (w : World) : World × List Ev :=
-  let w : World := { w with flag := false, todo := (w.hbs.length : Int) }
-  if w.todo > 0 then
-    match round sc w.hbs.length { w with idx := 0 } with
-    | (w', evs) => (w', .tickBegin :: evs)
-  else ({ w with cur := none }, [.tickBegin, .tickEnd])
+  match applyRp w with
+  | (w1, e1) =>
+    match tickCore sc w1 with
+    | (w2, e2) => (w2, e1 ++ e2)
 
 /-- top-level commands of a case -/
 inductive Cmd where
   | tick
   | op (self : Nat) (op : Op)
+  | tflags (n : Nat)                    -- MAIN_OPTION (timer_flags) = n
   deriving Repr
 
 def stepCmd (sc : Scripts) (w : World) : Cmd → World × List Ev
@@ -286,6 +396,7 @@ def stepCmd (sc : Scripts) (w : World) : Cmd → World × List Ev
       match runOps w self [op] with
       | (w', evs, .err) => (errorHandler w', evs ++ [.topErr self])
       | (w', evs, _) => (w', evs)
+  | .tflags n => if w.crashed then (w, []) else ({ w with tflags := (n : Int) }, [.tflags (n : Int)])
 
 def runCmds (sc : Scripts) (w : World) : List Cmd → World × List Ev
   | [] => (w, [])
